@@ -1526,6 +1526,33 @@ pub fn selection_map_wrapped(
     WrappedMergedSelectionMap(inner_selection_map)
 }
 
+/// A GraphQL selection set must not be empty. Client pointers are not part of the operation
+/// in which they are selected, so every selection set of `selections` that contains nothing
+/// else selects __typename. This is done once the merged selection map is complete, so that
+/// the query text, the normalization AST and the raw response type agree, whatever the order
+/// in which the selections were merged.
+pub fn select_typename_in_empty_selection_sets(selections: &mut MergedSelectionMap) {
+    for selection in selections.values_mut() {
+        match selection {
+            MergedServerSelection::ScalarField(_) => {}
+            MergedServerSelection::LinkedField(field)
+            | MergedServerSelection::ClientObjectSelectable(field) => {
+                select_typename_in_empty_selection_sets(&mut field.selection_map)
+            }
+            MergedServerSelection::InlineFragment(inline_fragment) => {
+                select_typename_in_empty_selection_sets(&mut inline_fragment.selection_map)
+            }
+        }
+    }
+
+    if selections
+        .values()
+        .all(|selection| matches!(selection, MergedServerSelection::ClientObjectSelectable(_)))
+    {
+        maybe_add_typename_selection(selections);
+    }
+}
+
 fn maybe_add_typename_selection(selections: &mut MergedSelectionMap) {
     // If a discriminator exists, this is a no-op
     selections.insert(
